@@ -1,4 +1,5 @@
 import AsyncsshModel.Model.Auth
+import AsyncsshModel.Gen.C05
 /-
   C05 — Access is granted exactly when a credential check succeeded.
   Theorems quantify over EVERY finite sequence of events: authentication requests (any users, methods,
@@ -7,6 +8,20 @@ import AsyncsshModel.Model.Auth
 -/
 namespace AsyncsshModel.C05
 open AsyncsshModel.Auth
+
+/-- which transition function is the faithful model of the source as it is now (flags regenerated from the AST
+    of `_process_userauth_request` / `_finish_userauth` on every run) -/
+def codeStep (app : App) : St → Ev → St :=
+  if Gen.C05.abortsPrevious && Gen.C05.beginTestIsBegun && decide (2 ≤ Gen.C05.staleChecks) then step app
+  else if Gen.C05.abortsPrevious then stepMid app
+  else stepOld app
+
+/-- **The source implements the repaired discipline**: a new request aborts the one in progress, superseded
+    `_finish_userauth` tasks stop at both suspension points, and `begin_auth` is skipped only for the user it
+    completed for — so the theorems below, stated about `step`/`run`, are about the current code. -/
+theorem code_is_repaired (app : App) : codeStep app = step app := by
+  unfold codeStep
+  simp [Gen.C05.abortsPrevious, Gen.C05.beginTestIsBegun, Gen.C05.staleChecks]
 
 /-- a credential check for `u` succeeded on this connection, or the application declared that `u` needs none -/
 def Granted (app : App) (log : List Call) (u : Nat) : Prop :=
